@@ -155,6 +155,21 @@ def run(ctx, replay_case):
         with open(path, "wb") as f:
             f.write(data)
         tjobs.append((path, data))
+    # files of the listed known findings are replayed on every run
+    try:
+        import json as _json
+        for ln in open(os.path.join(core.VERIF, "known_findings.jsonl")):
+            if not ln.strip() or ln.startswith("#"):
+                continue
+            k = _json.loads(ln)
+            if k.get("property") == "C19" and k.get("kind") == "finding" and k.get("replay", {}).get("file_hex"):
+                data = bytes.fromhex(k["replay"]["file_hex"])
+                path = os.path.join(tmp, f"known{len(tjobs)}.bin")
+                with open(path, "wb") as f:
+                    f.write(data)
+                tjobs.append((path, data))
+    except FileNotFoundError:
+        pass
     # example
     ex_names = rnd.sample([n for n, _ in L["cc"]], 3 if ctx.tier == "quick" else 20) + (["TPMT_PUBLIC"] if ctx.tier == "thorough" else [])
 
@@ -260,7 +275,10 @@ def run(ctx, replay_case):
                 b = canon.impl_dec("S", t.__name__, ccv, False, data)
                 if b[-1].startswith("R done"):
                     expected.append(t.__name__ if t is not Response else f"Response (TPM_CC.{cc_names[ccv]})")
-        if rc != 0 or listed != expected:
+        if rc != 0 and "AssertionError: Started parsing Response with parameter_encryption" in err:
+            viol("cli:type:AssertionError:process_response", "`type` ends with a traceback: the parameter_encryption assert of process_response",
+                 {"argv": ["type", "--in", "binary", "<file>"], "file_hex": data.hex(), "stderr": err[-300:]})
+        elif rc != 0 or listed != expected:
             viol("cli:type", f"`type` lists {len(listed)} types, strict decoding accepts {len(expected)} (status {rc})",
                  {"file_hex": data.hex(), "listed": listed[:10], "expected": expected[:10], "stderr": err[-300:]})
         if [l[2:] for l in tm] != expected:
